@@ -60,6 +60,15 @@ impl FixtureDatabase {
         }
     }
 
+    /// Record that `name` is bound on `line`. A name bound several times keeps its FIRST
+    /// binding: a use between two bindings of a local variable is a use of that variable.
+    fn record_binding(local_vars: &mut HashMap<String, usize>, name: String, line: usize) {
+        let first = local_vars.entry(name).or_insert(line);
+        if line < *first {
+            *first = line;
+        }
+    }
+
     /// Collect all local variable names from a function body.
     /// Records the line number where each variable is defined for scope checking.
     #[allow(clippy::only_used_in_recursion)]
@@ -79,7 +88,7 @@ impl FixtureDatabase {
                         self.collect_names_from_expr(target, &mut temp_names);
                     }
                     for name in temp_names {
-                        local_vars.insert(name, line);
+                        Self::record_binding(local_vars, name, line);
                     }
                 }
                 Stmt::AnnAssign(ann_assign) => {
@@ -88,7 +97,7 @@ impl FixtureDatabase {
                     let mut temp_names = HashSet::new();
                     self.collect_names_from_expr(&ann_assign.target, &mut temp_names);
                     for name in temp_names {
-                        local_vars.insert(name, line);
+                        Self::record_binding(local_vars, name, line);
                     }
                 }
                 Stmt::AugAssign(aug_assign) => {
@@ -97,7 +106,7 @@ impl FixtureDatabase {
                     let mut temp_names = HashSet::new();
                     self.collect_names_from_expr(&aug_assign.target, &mut temp_names);
                     for name in temp_names {
-                        local_vars.insert(name, line);
+                        Self::record_binding(local_vars, name, line);
                     }
                 }
                 Stmt::For(for_stmt) => {
@@ -106,7 +115,7 @@ impl FixtureDatabase {
                     let mut temp_names = HashSet::new();
                     self.collect_names_from_expr(&for_stmt.target, &mut temp_names);
                     for name in temp_names {
-                        local_vars.insert(name, line);
+                        Self::record_binding(local_vars, name, line);
                     }
                     self.collect_local_variables(&for_stmt.body, line_index, local_vars);
                 }
@@ -116,7 +125,7 @@ impl FixtureDatabase {
                     let mut temp_names = HashSet::new();
                     self.collect_names_from_expr(&for_stmt.target, &mut temp_names);
                     for name in temp_names {
-                        local_vars.insert(name, line);
+                        Self::record_binding(local_vars, name, line);
                     }
                     self.collect_local_variables(&for_stmt.body, line_index, local_vars);
                 }
@@ -135,7 +144,7 @@ impl FixtureDatabase {
                             let mut temp_names = HashSet::new();
                             self.collect_names_from_expr(optional_vars, &mut temp_names);
                             for name in temp_names {
-                                local_vars.insert(name, line);
+                                Self::record_binding(local_vars, name, line);
                             }
                         }
                     }
@@ -149,7 +158,7 @@ impl FixtureDatabase {
                             let mut temp_names = HashSet::new();
                             self.collect_names_from_expr(optional_vars, &mut temp_names);
                             for name in temp_names {
-                                local_vars.insert(name, line);
+                                Self::record_binding(local_vars, name, line);
                             }
                         }
                     }
